@@ -225,6 +225,29 @@ def run(ctx):
                     real = (mul or add) and only_len
                     ok = ok and real
                     extra = '; the buffer strictly grows (old length x constant >= 2, or + constant >= 1, nothing else): %s' % real
+                    if mul and real:
+                        # ... and doubling grows only what is not empty: on entry of the loop the buffer has been given
+                        # a positive length wherever it was empty (`if is_empty() { resize(K > 0) }`, or unconditionally)
+                        def pos_resize(x):
+                            t_ = enc.term(x)
+                            if not (t_['k'] == 'call' and call_matches(t_, ['Vec::<T, A>::resize']) and 'output_vec' in origin(enc, t_['args'][0]).fields):
+                                return False
+                            n_ = origin(enc, t_['args'][1])      # a positive constant, possibly spelled as a product / sum of constants
+                            cs_ = [c_ for c_ in n_.consts() if isinstance(c_, int) and not isinstance(c_, bool)]
+                            return bool(cs_) and min(cs_) > 0 and not n_.params() and not n_.fields and not n_.call_names() and \
+                                {x_ for x_ in n_.flags if x_.startswith('arith:')} <= {'arith:Mul', 'arith:MulWithOverflow', 'arith:Add', 'arith:AddWithOverflow'}
+                        seeds = [x for x in enc.live_blocks() if x not in blk and pos_resize(x)]
+                        nonempty = any(enc.dominates(x, h) for x in seeds)
+                        if not nonempty:
+                            for x in sorted(enc.live_blocks()):
+                                if x in blk or enc.term(x)['k'] != 'switch' or not enc.dominates(x, h):
+                                    continue
+                                so_ = origin(enc, enc.switch_info(x)['op'])
+                                if any(strip_generics(cname(c)).endswith('Vec::is_empty') and 'output_vec' in origin(enc, c['args'][0]).fields for c in so_.calls) \
+                                        and 'not' not in so_.flags:
+                                    nonempty = nonempty or must_pass(enc, enc.term(x)['otherwise'], [h], seeds)
+                        ok = ok and nonempty
+                        extra += '; the buffer is not empty when the loop starts (positive resize wherever is_empty()): %s' % nonempty
                 if cls == 'end':
                     # records total_out (bzip2/xz store len; deflate slices by compress.total_out() later)
                     rec = any(enc.term(x)['k'] == 'call' and cname(enc.term(x)).endswith('::total_out') for x in inside) or adt.startswith('flate2')
@@ -498,7 +521,11 @@ def consumed(ctx):
                     lo, ro = origin(b, cond[2]), origin(b, cond[3])
                     if any(c is t for c in lo.calls + ro.calls for _, t in pos) and ('len' in lo.flags or 'len' in ro.flags):
                         errs = [s_ for s_ in b.succs(bb) if all_paths_err(b, s_)]
-                        okc = okc or len(errs) == 1
+                        goes = [s_ for s_ in b.succs(bb) if not all_paths_err(b, s_)]
+                        # ... and it is the *equal* outcome that goes on (a position short of - or, if it could be,
+                        # beyond - the length is the error)
+                        eq_goes = len(goes) == 1 and any(g_['switch_bb'] == bb and g_['op'] == 'Eq' for g_ in cmp_guards(b, goes[0]))
+                        okc = okc or (len(errs) == 1 and eq_goes)
                 ctx.ob('CONSUMED', v, bool(pos) and okc, short_loc(b.span),
                        'snappy: the position reached in the decompressed buffer is compared with its length and a difference returns Err: %s' % (bool(pos) and okc))
                 continue
